@@ -37,7 +37,7 @@ for name in sorted(os.listdir(os.path.join(ROOT, "seeded"))):
     if sh("git -C /repo status --short").strip():
         print("repo dirty"); sys.exit(2)
     sh("git -C /repo apply %s/patch.diff" % d)
-    out = sh("cd %s && python3 check.py %s quick" % (ROOT, prop))
+    out = sh("cd %s && mkdir -p work/seed-evidence && VERIF_EVIDENCE_DIR=%s/work/seed-evidence python3 check.py %s quick" % (ROOT, ROOT, prop))
     rc_line = [l for l in out.splitlines() if l.startswith("VIOLATION")]
     summ = [l for l in out.splitlines() if " quick:" in l]
     failed = [l.strip() for l in out.splitlines() if "FAILED obligation" in l]
